@@ -36,7 +36,9 @@ def shards(tier):
         vs = list(dsl.lens_vectors(3, 2))
     else:
         vs = list(dsl.lens_vectors(4, 2)) + [v for v in dsl.lens_vectors(3, 3) if max(v, default=0) == 3]
-    return [{"lens": v, "dt1": dt} for v in vs for dt in dsl.DTYPES]
+    out = [{"lens": v, "dt1": dt} for v in vs for dt in dsl.DTYPES]
+    out += [{"lens": [3, 0, 7, 1, 0, 0, 12, 2, 5, 0, 9, 4, 1, 33, 0, 2], "dt1": dt} for dt in ("int64", "uint8", "float32")]      # one larger array (16 rows, 79 cells)
+    return out
 
 
 def cases(shard, tier):
